@@ -6,7 +6,7 @@ MODULE = "SynRBLModel.Properties.C03"
 
 
 def statement(ctx, tr):
-    pipeline.stmt_c03(ctx, tr["out"], tr["threshold"])
+    pipeline.stmt_c03(ctx, tr["out"], tr["threshold"], inputs=tr.get("inputs"), keep_maps=tr.get("keep_maps", False))
 
 
 def search(ctx):
